@@ -86,6 +86,7 @@ func seqs(tier string) []*mc.Seq {
 		"m/digest-file-negsize": {1000}, "m/digest-dir-badhash": {1000}, "m/digest-file-nil": {1000},
 		"m/ghost-file": {1000}, "m/absent-deep": {1000}, "m/garbage": {1000}, "m/deep-dup": {1000},
 		"mr/dup-file-sym": {1000}, "mr/absent": {1000},
+		"m/dup-dir-dir-diff": {1000}, "mr/dup-dir-dir-diff": {1000},
 	}
 	for _, in := range catalogue() {
 		for _, maxFiles := range naive[in.name] {
